@@ -65,7 +65,7 @@ def build(case):
         raise NotIdentifiable()
     Xd = rec["X"].toarray() * np.sqrt(np.abs(rec["w"]))[:, None]
     Xd = Xd / np.maximum(np.linalg.norm(Xd, axis=0), 1e-300)
-    if np.linalg.matrix_rank(Xd, tol=1e-9) < Xd.shape[1] - (len(f.trans_att) if (f.double and "alpha" not in (case.fix or "")) else 0):
+    if np.linalg.matrix_rank(Xd, tol=1e-9) < Xd.shape[1] - (len(f.trans_att) if (f.double and "alpha" not in (case.fix or "").split("+")) else 0):
         raise NotIdentifiable()
     va = case.variance_arrays()
     fx, kw = fix_lit(case)
@@ -106,9 +106,9 @@ def build(case):
 def gen_params(ctx):
     rng = ctx.rng("c07")
     out = []
-    combos = [(False, "gamma"), (False, "dalpha"), (False, "alpha"), (True, "gamma"), (True, "alpha"), (True, "alpha+gamma")]
+    combos = [(False, "gamma"), (False, "dalpha"), (False, "alpha"), (True, "gamma"), (True, "alpha"), (True, "alpha+gamma"), (False, "gamma+dalpha"), (False, "alpha+gamma")]
     ratios = [0.0, 1e-6, 1.0, 100.0]
-    n = 12 if ctx.quick else 120
+    n = 16 if ctx.quick else 160
     for k in range(n):
         double, fix = combos[k % len(combos)]
         r = ratios[(k // len(combos) + k) % len(ratios)]
@@ -120,7 +120,7 @@ def gen_params(ctx):
         p = calib.random_params(rng, double, quick=True, **force)
         p["fix"] = fix
         # supplied variance relative to the measurement variance of an observation, translated through the coefficient
-        scale = {"gamma": 1e-5 / 1e-5, "dalpha": 1e-5 / max(p["span"], 1.0) ** 2 * 4, "alpha": 1e-5, "alpha+gamma": 1e-5}[fix]
+        scale = {"gamma": 1e-5 / 1e-5, "dalpha": 1e-5 / max(p["span"], 1.0) ** 2 * 4, "alpha": 1e-5, "alpha+gamma": 1e-5, "gamma+dalpha": 1e-5 / max(p["span"], 1.0) ** 2 * 4}[fix]
         p["fix_var"] = float(r * scale)
         p["ratio"] = r
         out.append(p)
@@ -157,7 +157,7 @@ def run_params(ctx, plist, name):
 
 
 def run(ctx):
-    ctx.extra["rule"] = ("seeded fibres (nx 9-16, nt 1-3, 0-1 splices, noise 0.2-5%, all variance forms) x {single: fix_gamma, fix_dalpha, fix_alpha; double: fix_gamma, fix_alpha, "
+    ctx.extra["rule"] = ("seeded fibres (nx 9-16, nt 1-3, 0-1 splices, noise 0.2-5%, all variance forms) x {single: fix_gamma, fix_dalpha, fix_alpha, fix_gamma+fix_dalpha, fix_gamma+fix_alpha; double: fix_gamma, fix_alpha, "
                          "fix_alpha+fix_gamma} x supplied variance in {0, tiny, comparable to, 100x} the measurement variance (translated through the coefficient). The arguments of "
                          "wls_sparse are captured at run time and compared with the reduced rows of the model; the result is judged by exact residual tests on the reduced problem")
     ctx.trusted += ["harness vlib/props/c07.py (run-time wrapper around calibrate_utils.wls_sparse inside the harness process)", "LSQR / lstsq judged, not modelled"]
